@@ -57,22 +57,22 @@ type Interp struct {
 	decisions []int
 	newWork   [][]int
 
-	steps     int
-	MaxSteps  int
-	pc        []*Term
-	tape      []TapeEvent
-	cur       *frame
-	depth     int
-	cfg       *Config
-	res       *PathResult
-	watch     map[*Value]string // write-monitored slots (C13)
-	watchOn   bool
-	locks     map[*Value]*lockState
-	mon       *lockMonitor
-	unknownFz int
-	funcsSeen map[*ssa.Function]bool
-	fmtTypes  map[string]types.Type
-	sched     *scheduler
+	steps      int
+	MaxSteps   int
+	pc         []*Term
+	tape       []TapeEvent
+	cur        *frame
+	depth      int
+	cfg        *Config
+	res        *PathResult
+	watch      map[*Value]string // write-monitored slots (C13)
+	watchOn    bool
+	locks      map[*Value]*lockState
+	mon        *lockMonitor
+	unknownFz  int
+	funcsSeen  map[*ssa.Function]bool
+	fmtTypes   map[string]types.Type
+	sched      *scheduler
 	allocBound int // upper bound for MakeSlice obligations (-1: off)
 	obs        []obsRec
 	enumHits   int
